@@ -1021,3 +1021,46 @@ func DerivesFrom(v ssa.Value, isSource, isSanitizer func(ssa.Value) bool) (reach
 	})
 	return
 }
+
+// ReturnValue resolves result idx of a return, looking through the
+// defer-spilled form (go/ssa stores results to locals before rundefers and
+// reloads them): the last store to the result cell in the return's block.
+func ReturnValue(r *ssa.Return, idx int) ssa.Value {
+	v := r.Results[idx]
+	u, ok := v.(*ssa.UnOp)
+	if !ok || u.Op != token.MUL {
+		return v
+	}
+	cell, ok := u.X.(*ssa.Alloc)
+	if !ok {
+		return v
+	}
+	var last ssa.Value
+	for _, in := range r.Block().Instrs {
+		if in == ssa.Instruction(u) {
+			break
+		}
+		if st, ok := in.(*ssa.Store); ok && st.Addr == ssa.Value(cell) {
+			last = st.Val
+		}
+	}
+	if last != nil {
+		return last
+	}
+	return v
+}
+
+// Returns lists the source-level return instructions of fn (not the
+// synthetic one of the recover block).
+func Returns(fn *ssa.Function) []*ssa.Return {
+	var out []*ssa.Return
+	EachInstr(fn, func(i ssa.Instruction) {
+		if r, ok := i.(*ssa.Return); ok {
+			if fn.Recover != nil && i.Block() == fn.Recover {
+				return
+			}
+			out = append(out, r)
+		}
+	})
+	return out
+}
